@@ -1119,3 +1119,218 @@ Proof.
       vm_compute. discriminate.
     + split; vm_compute; reflexivity.
 Qed.
+
+(* -------------------------------------------------------------------------------------------------- *)
+(** * Weisfeiler-Lehman: the functional model of the kernel and of its two Python callers (Model/Wl.v:
+    weisfeiler_lehman_core.pyx, weisfeiler_lehman.py) against colour refinement (Proofs/WlProofs.v).
+    [Wl.color_weisfeiler_lehman sort g powers max_iter]: [g] the CSR pattern, [powers] the hash table of the
+    caller (exact rationals: an argument), [sort] the std::sort call (an argument constrained by [Wl.sort_ok]:
+    a rearrangement in which no triple is [is_lower] than an earlier one; ties in any order).
+    [Wl.cr_step] / [Wl.cr_iter] / [Wl.cr_fix]: colour refinement on partitions (same class and, for every class,
+    the same number of neighbours in it).  [Wl.no_hash_collision] / [Wl.wl_collision_free]: the computable
+    hypothesis of the two PARTIAL theorems (a sum of powers is not an injective code of a multiset; the
+    harness evaluates it on every tested graph and reports a graph that violates it). *)
+From SKN Require Model.Wl Proofs.WlProofs.
+Set Warnings "-notation-overridden".
+
+(** 14. The sort contract is satisfiable (insertion sort), so none of the statements below is vacuous. *)
+Theorem wl_sort_ok : Wl.sort_ok Wl.wl_sort.
+Proof. exact WlProofs.wl_sort_ok. Qed.
+Print Assumptions wl_sort_ok.
+
+(** 15. One kernel round.  Unconditionally, nodes that one refinement step keeps together (same label, same
+    multiset of neighbour labels) receive the same new label: a sum over a multiset does not depend on the
+    order, and equal keys receive equal ranks wherever the sort puts them. *)
+Theorem wl_round_coarser (sort : list Wl.wtuple -> list Wl.wtuple) (g : graph) (powers : list Q) (eps : Q)
+        (labels : list nat) :
+  Wl.sort_ok sort -> length labels = length g -> (0 <= eps)%Q ->
+  forall u v, u < length g -> v < length g -> Wl.refines_to g labels u v ->
+  nthn (fst (Wl.wl_round sort g powers eps labels)) u = nthn (fst (Wl.wl_round sort g powers eps labels)) v.
+Proof. exact (WlProofs.wl_round_coarser sort g powers eps labels). Qed.
+Print Assumptions wl_round_coarser.
+
+(** Under [no_hash_collision] one round is exactly one refinement step. *)
+Theorem wl_round_refines (sort : list Wl.wtuple -> list Wl.wtuple) (g : graph) (powers : list Q) (eps : Q)
+        (labels : list nat) :
+  Wl.sort_ok sort -> length labels = length g -> (0 <= eps)%Q ->
+  Wl.no_hash_collision g powers eps labels = true ->
+  forall u v, u < length g -> v < length g ->
+  (nthn (fst (Wl.wl_round sort g powers eps labels)) u = nthn (fst (Wl.wl_round sort g powers eps labels)) v
+   <-> Wl.refines_to g labels u v).
+Proof. exact (WlProofs.wl_round_refines sort g powers eps labels). Qed.
+Print Assumptions wl_round_refines.
+
+(** The step on labellings is the step on partitions. *)
+Theorem cr_step_labels (g : graph) (L : list nat) (u v : nat) :
+  wf_graph g -> u < length g -> v < length g ->
+  (Wl.cr_step g (Wl.same_label L) u v = true <-> Wl.refines_to g L u v).
+Proof. exact (WlProofs.cr_step_labels g L u v). Qed.
+Print Assumptions cr_step_labels.
+
+(** 16. The colouring (PARTIAL: the hypothesis in every executed round).  The colour classes returned by
+    color_weisfeiler_lehman are the classes of the [max_iter]-th iterate of colour refinement (the kernel
+    stops earlier only when a round changes no label, and then the iterates have stopped changing too). *)
+Theorem wl_colouring_is_refinement_partial (sort : list Wl.wtuple -> list Wl.wtuple) (g : graph)
+        (powers : list Q) (max_iter : Z) :
+  Wl.sort_ok sort -> wf_graph g ->
+  Wl.wl_collision_free sort g powers Wl.wl_eps (Wl.wl_max_iter (length g) max_iter) (repeat 0 (length g)) true = true ->
+  forall u v, u < length g -> v < length g ->
+  (nthn (Wl.color_weisfeiler_lehman sort g powers max_iter) u
+   = nthn (Wl.color_weisfeiler_lehman sort g powers max_iter) v
+   <-> Wl.cr_iter g (Wl.wl_max_iter (length g) max_iter) u v = true).
+Proof. exact (WlProofs.wl_colouring_is_refinement_partial sort g powers max_iter). Qed.
+Print Assumptions wl_colouring_is_refinement_partial.
+
+(** With the default [max_iter = -1]: the fixed point. *)
+Theorem wl_colouring_is_refinement_default_partial (sort : list Wl.wtuple -> list Wl.wtuple) (g : graph)
+        (powers : list Q) (max_iter : Z) :
+  Wl.sort_ok sort -> wf_graph g -> ((max_iter < 0)%Z \/ (Z.of_nat (length g) <= max_iter)%Z) ->
+  Wl.wl_collision_free sort g powers Wl.wl_eps (length g) (repeat 0 (length g)) true = true ->
+  forall u v, u < length g -> v < length g ->
+  (nthn (Wl.color_weisfeiler_lehman sort g powers max_iter) u
+   = nthn (Wl.color_weisfeiler_lehman sort g powers max_iter) v
+   <-> Wl.cr_fix g u v = true).
+Proof. exact (WlProofs.wl_colouring_is_refinement_default_partial sort g powers max_iter). Qed.
+Print Assumptions wl_colouring_is_refinement_default_partial.
+
+(** REFUTED without the hypothesis, for the table the implementation builds: [WlProofs.wl_cex_g] (90 nodes:
+    an antiregular graph on 0..43, nodes 44 and 45 joined to 22 of its nodes each, a clique 46..89 joined to
+    44 and 45) with [WlProofs.wl_cex_powers] = the exact float64 entries of [(-pi / 3.15) ** arange(90)].
+    Nodes 44 and 45 have the same degree and multisets of neighbour colours whose hashes differ by 2.4e-13
+    < epsilon = 1e-10: they keep a common colour, although colour refinement separates them in its second
+    round.  The implementation returns the same colours on this graph (harness: kind = hash_collision). *)
+Theorem wl_colouring_is_refinement_refuted :
+  wf_graph WlProofs.wl_cex_g /\ length WlProofs.wl_cex_g = 90 /\ length WlProofs.wl_cex_powers = 90 /\
+  nthn (Wl.color_weisfeiler_lehman Wl.wl_sort WlProofs.wl_cex_g WlProofs.wl_cex_powers (-1)) WlProofs.wl_cex_u
+  = nthn (Wl.color_weisfeiler_lehman Wl.wl_sort WlProofs.wl_cex_g WlProofs.wl_cex_powers (-1)) WlProofs.wl_cex_v /\
+  Wl.cr_fix WlProofs.wl_cex_g WlProofs.wl_cex_u WlProofs.wl_cex_v = false.
+Proof. exact WlProofs.wl_colouring_is_refinement_refuted. Qed.
+Print Assumptions wl_colouring_is_refinement_refuted.
+
+(** The specification side: [cr_fix] (n rounds on n nodes) is a fixed point of the refinement step, every
+    later iterate is the same partition, and two nodes are together in it iff no round separates them. *)
+Theorem cr_fix_stable (g : graph) :
+  wf_graph g -> forall u v, u < length g -> v < length g -> Wl.cr_step g (Wl.cr_fix g) u v = Wl.cr_fix g u v.
+Proof. exact (WlProofs.cr_fix_stable g). Qed.
+Print Assumptions cr_fix_stable.
+
+Theorem cr_iter_fix (g : graph) (k : nat) :
+  wf_graph g -> length g <= k ->
+  forall u v, u < length g -> v < length g -> Wl.cr_iter g k u v = Wl.cr_fix g u v.
+Proof. exact (WlProofs.cr_iter_fix g k). Qed.
+Print Assumptions cr_iter_fix.
+
+Theorem cr_fix_never_separated (g : graph) (u v : nat) :
+  wf_graph g -> u < length g -> v < length g ->
+  (Wl.cr_fix g u v = true <-> forall k, Wl.cr_iter g k u v = true).
+Proof. exact (WlProofs.cr_fix_never_separated g u v). Qed.
+Print Assumptions cr_fix_never_separated.
+
+(** The table-per-round version evaluated by the harness is the specification. *)
+Theorem cr_iter_tab_correct (g : graph) (k : nat) :
+  wf_graph g -> forall u v, u < length g -> v < length g ->
+  Wl.tab_rel (Wl.cr_iter_tab g k) u v = Wl.cr_iter g k u v.
+Proof. exact (WlProofs.cr_iter_tab_correct g k). Qed.
+Print Assumptions cr_iter_tab_correct.
+
+(** 17. Renumbering.  [Wl.csr_iso p g g']: g' is g renumbered by p with every row stored in any order
+    (SciPy sorts the indices of the permuted matrix; [perm_graph p g] keeps the order of g).  The colours of
+    g' are the renumbered colours of g, LABEL FOR LABEL (the new label is the rank of the key
+    (old label, hash) and the keys are the same multiset), whatever the two sorts do with ties; no
+    collision hypothesis. *)
+Theorem wl_equivariant_iso (n : nat) (p : list nat) (g g' : graph) (powers : list Q)
+        (sort sort' : list Wl.wtuple -> list Wl.wtuple) (max_iter : Z) :
+  Permutation p (seq 0 n) -> length g = n -> wf_graph g -> Wl.csr_iso p g g' ->
+  Wl.sort_ok sort -> Wl.sort_ok sort' ->
+  Wl.color_weisfeiler_lehman sort' g' powers max_iter
+  = perm_vec 0 p (Wl.color_weisfeiler_lehman sort g powers max_iter).
+Proof. exact (WlProofs.wl_equivariant_iso n p g g' powers sort sort' max_iter). Qed.
+Print Assumptions wl_equivariant_iso.
+
+Theorem wl_equivariant (n : nat) (p : list nat) (g : graph) (powers : list Q)
+        (sort sort' : list Wl.wtuple -> list Wl.wtuple) (max_iter : Z) :
+  Permutation p (seq 0 n) -> length g = n -> wf_graph g -> Wl.sort_ok sort -> Wl.sort_ok sort' ->
+  Wl.color_weisfeiler_lehman sort' (perm_graph p g) powers max_iter
+  = perm_vec 0 p (Wl.color_weisfeiler_lehman sort g powers max_iter).
+Proof. exact (WlProofs.wl_equivariant n p g powers sort sort' max_iter). Qed.
+Print Assumptions wl_equivariant.
+
+(** As a partition: p[u], p[v] share a colour in g' iff u, v do in g. *)
+Theorem wl_equivariant_partition (n : nat) (p : list nat) (g g' : graph) (powers : list Q)
+        (sort sort' : list Wl.wtuple -> list Wl.wtuple) (max_iter : Z) (u v : nat) :
+  Permutation p (seq 0 n) -> length g = n -> wf_graph g -> Wl.csr_iso p g g' ->
+  Wl.sort_ok sort -> Wl.sort_ok sort' -> u < n -> v < n ->
+  (nthn (Wl.color_weisfeiler_lehman sort' g' powers max_iter) (nthn p u)
+   = nthn (Wl.color_weisfeiler_lehman sort' g' powers max_iter) (nthn p v)
+   <-> nthn (Wl.color_weisfeiler_lehman sort g powers max_iter) u
+       = nthn (Wl.color_weisfeiler_lehman sort g powers max_iter) v).
+Proof. exact (WlProofs.wl_equivariant_partition n p g g' powers sort sort' max_iter u v). Qed.
+Print Assumptions wl_equivariant_partition.
+
+(** The order in which each row is stored and the tie-breaking of the sort are irrelevant. *)
+Theorem wl_row_order_irrelevant (g g' : graph) (powers : list Q)
+        (sort sort' : list Wl.wtuple -> list Wl.wtuple) (max_iter : Z) :
+  wf_graph g -> Forall2 (@Permutation nat) g' g -> Wl.sort_ok sort -> Wl.sort_ok sort' ->
+  Wl.color_weisfeiler_lehman sort' g' powers max_iter = Wl.color_weisfeiler_lehman sort g powers max_iter.
+Proof. exact (WlProofs.wl_row_order_irrelevant g g' powers sort sort' max_iter). Qed.
+Print Assumptions wl_row_order_irrelevant.
+
+(** 18. The test.  are_isomorphic on a graph and a renumbered copy (rows in any order) returns True: in
+    every round the two label vectors are renumberings of each other, has_changed agrees, and the
+    histograms are equal; no collision hypothesis. *)
+Theorem are_isomorphic_iso (n : nat) (p : list nat) (g g' : graph) (powers : list Q)
+        (sort : list Wl.wtuple -> list Wl.wtuple) (max_iter : Z) :
+  Permutation p (seq 0 n) -> length g = n -> wf_graph g -> Wl.csr_iso p g g' -> Wl.sort_ok sort ->
+  Wl.are_isomorphic sort g g' powers max_iter = Ok true.
+Proof. exact (WlProofs.are_isomorphic_iso n p g g' powers sort max_iter). Qed.
+Print Assumptions are_isomorphic_iso.
+
+Theorem are_isomorphic_self (n : nat) (p : list nat) (g : graph) (powers : list Q)
+        (sort : list Wl.wtuple -> list Wl.wtuple) (max_iter : Z) :
+  Permutation p (seq 0 n) -> length g = n -> wf_graph g -> Wl.sort_ok sort ->
+  Wl.are_isomorphic sort g (perm_graph p g) powers max_iter = Ok true.
+Proof. exact (WlProofs.are_isomorphic_self n p g powers sort max_iter). Qed.
+Print Assumptions are_isomorphic_self.
+
+(** Non-vacuity: the house graph of the docstring with the table the implementation builds for n = 5
+    (the exact values of the float64 entries of [(-pi / 3.15) ** arange(5)]): the hypotheses hold, the
+    model returns the documented colours [0 2 1 1 2], they are the classes of colour refinement, and the
+    statements about a renumbered copy are instances. *)
+Definition exW_g : graph := [[1; 4]; [0; 2; 4]; [1; 3]; [2; 4]; [0; 1; 3]].
+Definition exW_powers : list Q :=
+  [(1 # 1)%Q; (-8983159050194845 # 9007199254740992)%Q; (8959183008927235 # 9007199254740992)%Q;
+   (-8935270959686445 # 9007199254740992)%Q; (2227855682919457 # 2251799813685248)%Q].
+Definition exW_p : list nat := [3; 0; 4; 2; 1].
+
+Example wl_nonvacuous :
+  wf_graph exW_g /\ Permutation exW_p (seq 0 5) /\
+  Wl.wl_collision_free Wl.wl_sort exW_g exW_powers Wl.wl_eps 5 (repeat 0 5) true = true /\
+  Wl.color_weisfeiler_lehman Wl.wl_sort exW_g exW_powers (-1) = [0; 2; 1; 1; 2] /\
+  map (fun u => map (Wl.tab_rel (Wl.cr_iter_tab exW_g 5) u) (seq 0 5)) (seq 0 5)
+    = map (fun u => map (Wl.same_label [0; 2; 1; 1; 2] u) (seq 0 5)) (seq 0 5) /\
+  perm_graph exW_p exW_g = [[3; 4; 1]; [3; 0; 2]; [4; 1]; [0; 1]; [0; 2]] /\
+  Wl.color_weisfeiler_lehman Wl.wl_sort (perm_graph exW_p exW_g) exW_powers (-1) = [2; 2; 1; 0; 1] /\
+  perm_vec 0 exW_p [0; 2; 1; 1; 2] = [2; 2; 1; 0; 1] /\
+  Wl.are_isomorphic Wl.wl_sort exW_g (perm_graph exW_p exW_g) exW_powers (-1) = Ok true /\
+  Wl.are_isomorphic Wl.wl_sort exW_g [[1; 2]; [0; 2]; [0; 1; 3; 4]; [2; 4]; [2; 3]] exW_powers (-1) = Ok false.
+Proof.
+  split; [|split].
+  - intros u v. unfold exW_g, row. do 5 (destruct u as [|u]; [simpl; intuition lia|]).
+    destruct u; simpl; intros [].
+  - apply NoDup_Permutation.
+    + unfold exW_p. repeat constructor; simpl; intuition lia.
+    + apply seq_NoDup.
+    + intros x. unfold exW_p. simpl. lia.
+  - repeat (split; [vm_compute; reflexivity|]). vm_compute; reflexivity.
+Qed.
+
+(** The hypothesis of the partial theorems cannot be dropped for an ARBITRARY table: with the (legal
+    argument) table of all ones the hash is the degree, and the path on five nodes keeps its middle node
+    with its two neighbours, which colour refinement separates in its second round. *)
+Example wl_hash_not_injective_example :
+  let g := [[1]; [0; 2]; [1; 3]; [2; 4]; [3]] in
+  let ones := [1; 1; 1; 1; 1]%Q in
+  Wl.wl_collision_free Wl.wl_sort g ones Wl.wl_eps 5 (repeat 0 5) true = false /\
+  Wl.color_weisfeiler_lehman Wl.wl_sort g ones (-1) = [0; 1; 1; 1; 0] /\
+  Wl.tab_rel (Wl.cr_iter_tab g 5) 1 2 = false.
+Proof. cbv zeta. split; [|split]; vm_compute; reflexivity. Qed.
